@@ -7,11 +7,11 @@ namespace Yow.E2E
 section
 variable {ex : Bool} {accts : List Acct} {groups : List (Nat × List Acct)} {L : List (Acct × Node)} {V : View} {x : Acct}
 
-theorem nonce_lt_of_pos {k n : Nat} {ms : List Stanza} (hc : ∀ st ∈ ms, CtsOK k st) (hp : 1 ≤ sumMap (nOf n) ms) : n < k := by
+theorem nonce_lt_of_pos {k n : Nat} {ms : List Stanza} (hc : ∀ st ∈ ms, ∀ e ∈ ctsOf st, e.2.ctr < k) (hp : 1 ≤ sumMap (nOf n) ms) : n < k := by
   obtain ⟨st, hst, hpos⟩ := exists_of_sumMap_pos (f := nOf n) (l := ms) (by omega)
   have : n ∈ ctrsOf st := List.count_pos_iff.mp hpos
   obtain ⟨e, he, rfl⟩ := List.mem_map.mp this
-  exact (hc st hst e he).2
+  exact hc st hst e he
 
 /-- the recipient took the stanzas `ms` (from its queue, or from what was parked) and handled them -/
 theorem RecipStep.ofHandled {cons rest ms : List Stanza} {c1 c' : Client} {out : List Stanza}
@@ -30,7 +30,7 @@ theorem RecipStep.ofHandled {cons rest ms : List Stanza} {c1 c' : Client} {out :
     (s_tok : ∀ id, sumMap (downTok id) cons + pendS id (V.cl x).pendingIn = sumMap (downTok id) ms + pendS id c1.pendingIn)
     (s_non : ∀ n, sumMap (nOf n) cons + pendN n (V.cl x).pendingIn = sumMap (nOf n) ms + pendN n c1.pendingIn)
     (cons_plain : ∀ st ∈ cons, ∀ id r, retryDownTok id r st = 0 ∧ rcptOut id r st = 0)
-    (ms_cts : ∀ st ∈ ms, CtsOK V.nextCtr st) :
+    (ms_cts : ∀ st ∈ ms, ∀ e ∈ ctsOf st, e.2.ctr < V.nextCtr) :
     RecipStep accts groups L V x cons rest c' out V.nextCtr := by
   have hcg := hT.clients x
   have hsc1 : ∀ id, shownC c1 id = shownC (V.cl x) id := fun id => shownC_congr s_shown id
